@@ -98,7 +98,7 @@ def k_fd(ctx, cfg, p, model_fed=False, via="ctor", seed=0):
     ctx.check("fd.roundtrip", u.packet_len == len(want), "packet_len", feat, case, observed=u.packet_len, expected=len(want))
     ok, rp = attempt(u.pack)
     ctx.check("fd.roundtrip", ok and bytes(rp) == want, "repack", feat, case, observed=bytes(rp)[:80] if ok else repr(rp))
-    ISO.remember(u, want, "file_data")
+    ISO.remember(u, want, "file_data", view=lambda u=u: (C.get_params("file_data", u), C.hdr_fields(u.pdu_header), u.packet_len))
     ISO.recheck(ctx, "fd.decoded_objects_independent", case)
 
 
